@@ -34,37 +34,41 @@ def restoreList : Skel Nat :=
 def lprunCore : Skel Nat :=
   .seq (.ite 65 (.seq (.eff 66 false) (.eff 67 false)) (.seq (.eff 68 false) (.eff 69 false))) (.seq (.eff 70 false) (.seq (.tryFinally (.tryExcept (.tryExcept (.seq (.eff 71 true) (.eff 72 false)) [.sysExit] (.eff 73 false) (.skip)) [.kbInt] (.eff 74 false) (.skip)) (.ite 75 (.eff 76 false) (.eff 77 false))) (.seq (.eff 78 false) (.seq (.eff 79 false) (.seq (.eff 80 false) (.seq (.eff 81 false) (.seq (.eff 82 false) (.seq (.eff 83 false) (.seq (.eff 84 false) (.seq (.ite 85 (.seq (.eff 86 false) (.eff 87 false)) (.skip)) (.seq (.eff 88 false) (.seq (.ite 89 (.seq (.eff 90 false) (.seq (.eff 91 false) (.seq (.eff 92 false) (.eff 93 false)))) (.skip)) (.seq (.eff 94 false) (.seq (.ite 95 (.eff 96 false) (.skip)) (.ret)))))))))))))))
 
+/-- autoprofile/autoprofile.py `run` -/
+def autoprofileRun : Skel Nat :=
+  .seq (.eff 97 false) (.seq (.eff 98 false) (.seq (.eff 99 true) (.seq (.eff 100 false) (.seq (.eff 101 false) (.seq (.eff 102 true) (.seq (.eff 103 false) (.tryFinally (.eff 104 true) (.eff 105 false))))))))
+
 /-- profiler_mixin.py `runctx` -/
 def mixin_runctx : Skel Nat :=
-  .seq (.eff 97 false) (.seq (.tryFinally (.eff 98 true) (.eff 99 false)) (.ret))
+  .seq (.eff 106 false) (.seq (.tryFinally (.eff 107 true) (.eff 108 false)) (.ret))
 
 /-- profiler_mixin.py `runcall` -/
 def mixin_runcall : Skel Nat :=
-  .seq (.eff 97 false) (.tryFinally (.seq (.eff 100 true) (.ret)) (.eff 99 false))
+  .seq (.eff 106 false) (.tryFinally (.seq (.eff 109 true) (.ret)) (.eff 108 false))
 
 /-- profiler_mixin.py `__enter__` -/
 def mixin_enter : Skel Nat :=
-  .seq (.eff 97 false) (.ret)
+  .seq (.eff 106 false) (.ret)
 
 /-- profiler_mixin.py `__exit__` -/
 def mixin_exit : Skel Nat :=
-  .eff 99 false
+  .eff 108 false
 
 /-- profiler_mixin.py `wrap_function`: the wrapper function -/
 def wrap_function_wrapper : Skel Nat :=
-  .seq (.eff 97 false) (.seq (.tryFinally (.eff 101 true) (.eff 99 false)) (.ret))
+  .seq (.eff 106 false) (.seq (.tryFinally (.eff 110 true) (.eff 108 false)) (.ret))
 
 /-- profiler_mixin.py `wrap_coroutine`: the wrapper function -/
 def wrap_coroutine_wrapper : Skel Nat :=
-  .seq (.eff 97 false) (.seq (.tryFinally (.eff 102 true) (.eff 99 false)) (.ret))
+  .seq (.eff 106 false) (.seq (.tryFinally (.eff 111 true) (.eff 108 false)) (.ret))
 
 /-- profiler_mixin.py `wrap_generator`: one iteration of the wrapper loop -/
 def wrap_generator_iteration : Skel Nat :=
-  .seq (.eff 97 false) (.seq (.tryFinally (.tryExcept (.eff 103 true) [.special] (.ret) (.skip)) (.eff 99 false)) (.tryExcept (.eff 104 true) [.sysExit, .kbInt, .special, .other] (.eff 106 false) (.eff 105 false)))
+  .seq (.eff 106 false) (.seq (.tryFinally (.tryExcept (.eff 112 true) [.special] (.ret) (.skip)) (.eff 108 false)) (.tryExcept (.eff 113 true) [.sysExit, .kbInt, .special, .other] (.eff 115 false) (.eff 114 false)))
 
 /-- profiler_mixin.py `wrap_async_generator`: one iteration of the wrapper loop -/
 def wrap_async_generator_iteration : Skel Nat :=
-  .seq (.eff 97 false) (.seq (.tryFinally (.tryExcept (.eff 107 true) [.special] (.ret) (.skip)) (.eff 99 false)) (.tryExcept (.eff 104 true) [.sysExit, .kbInt, .special, .other] (.eff 109 false) (.eff 108 false)))
+  .seq (.eff 106 false) (.seq (.tryFinally (.tryExcept (.eff 116 true) [.special] (.ret) (.skip)) (.eff 108 false)) (.tryExcept (.eff 113 true) [.sysExit, .kbInt, .special, .other] (.eff 118 false) (.eff 117 false)))
 
 /-! Roles: indices of the statements whose source text starts with the given prefix (computed by the translator, so that the
     kernel compares numbers; an empty role means the statement is gone and makes the non-vacuity theorems fail). -/
@@ -112,12 +116,18 @@ def role_exit_restore_path : List Nat := [59]
 def role_rebind : List Nat := [57]
 /-- statements starting with `_main(args)` -/
 def role_call_main : List Nat := [56]
+/-- statements starting with `exec(code_obj` -/
+def role_ap_exec : List Nat := [104]
+/-- statements starting with `enable_count = prof.enable_count` -/
+def role_ap_save : List Nat := [103]
+/-- statements starting with `while: prof.enable_count > enable_count: prof.disable_by_count()` -/
+def role_ap_winddown : List Nat := [105]
 /-- statements starting with `self.enable_by_count()` -/
-def role_en : List Nat := [97]
+def role_en : List Nat := [106]
 /-- statements starting with `self.disable_by_count()` -/
-def role_dis : List Nat := [99]
+def role_dis : List Nat := [108]
 /-- statements starting with `yield` -/
-def role_yield : List Nat := [63, 104]
+def role_yield : List Nat := [63, 113]
 /-- statements starting with `if: options.output_interval` -/
 def role_if_interval : List Nat := [29]
 /-- statements starting with `if: options.builtin` -/
@@ -244,6 +254,15 @@ def skelNames : List String := [
   "return_value = None",
   "if: 'r' in opts",
   "return_value = profile",
+  "Profiler = AstTreeModuleProfiler if as_module else AstTreeProfiler",
+  "profiler = Profiler(script_file, prof_mod, profile_imports)",
+  "tree_profiled = profiler.profile()",
+  "prof = ns[PROFILER_LOCALS_NAME]",
+  "_extend_line_profiler_for_profiling_imports(prof)",
+  "code_obj = compile(tree_profiled, script_file, 'exec')",
+  "enable_count = prof.enable_count",
+  "exec(code_obj, ns, ns)",
+  "while: prof.enable_count > enable_count: prof.disable_by_count()",
   "self.enable_by_count()",
   "exec(cmd, globals, locals)",
   "self.disable_by_count()",
